@@ -11,7 +11,7 @@ package lookups
 // be made on a confined path.  Checked by /verif/bin/govc.  Comment-only.
 
 // The validator's meaning is a string-level fact: ASSUMED.
-//@ func isSafeLookupName
+//@ func IsSafeLookupName
 //@   assumed
 //@   pure
 //@   ensures implies(result, uf("safeName", bool, name))
